@@ -127,7 +127,9 @@ template<class A> static std::string runARH(std::vector<std::pair<std::string, A
 static std::string runDTH(std::vector<std::pair<std::string, Args>>& ops)
 {
 	DT t(DCL({ valCol })), other(DCL({ valCol })); other.AddRow(valCol = 1);
-	struct Slot { int kind = 0; std::unique_ptr<DT::RowReference> ref; std::unique_ptr<DT::Selection> sel; };
+	struct Slot { int kind = 0; std::unique_ptr<DT::RowReference> ref; std::unique_ptr<DT::Selection> sel; std::unique_ptr<DT::RowHashBounds> hb; };
+	DT::MultiHashIndex mhi = DT::MultiHashIndex::empty;          // index look-up histories (`findm`) run on a table with a multi-hash index
+	for (auto& o : ops) if (o.first == "findm" && mhi == DT::MultiHashIndex::empty) mhi = t.AddMultiHashIndex(valCol);
 	std::map<long long, Slot> H;
 	std::string out;
 	auto contents = [&] { std::string s; for (auto r : t) s += (s.empty() ? "" : ",") + std::to_string(r[valCol]); return s.empty() ? std::string("-") : s; };
@@ -166,6 +168,15 @@ static std::string runDTH(std::vector<std::pair<std::string, Args>>& ops)
 			else if (n == "selrm") call(out, snap, [&] { sel.Remove(size_t(a[1]), size_t(a[2])); return std::string(); });
 			else if (n == "selcount") call(out, snap, [&] { return eq((long long)sel.GetCount()); });
 			else call(out, snap, [&] { size_t c = t.GetCount(); t.Remove(sel.GetBegin(), sel.GetEnd()); return eq((long long)(c - t.GetCount())); });
+		}
+		else if (n == "findm") call(out, snap, [&] { H[a[1]].kind = 3; H[a[1]].hb.reset(new DT::RowHashBounds(t.FindByMultiHash(mhi, valCol == int(a[0])))); return eq((long long)H[a[1]].hb->GetCount()); });
+		else if (n == "bcount" || n == "bat" || n == "bsum")
+		{
+			if (H[a[0]].kind != 3) { out += "U "; continue; }
+			DT::RowHashBounds& hb = *H[a[0]].hb;
+			if (n == "bcount") call(out, snap, [&] { return eq((long long)hb.GetCount()); });
+			else if (n == "bat") call(out, snap, [&] { return eq(hb[size_t(a[1])][valCol]); });
+			else call(out, snap, [&] { long long sum = 0; for (auto r : hb) sum += r[valCol]; return eq(sum); });
 		}
 		else out += "?op ";
 	}
